@@ -285,6 +285,35 @@ fn check_rrect(c: &Case, obs: &mut Obs) {
     obs.outcome(&got);
     obs.nontrivial_if(!got.is_empty());
     obs.class("rounded-rectangle");
+    // the same corner radii described through the builder: corner by corner in two orders, derived from the
+    // finished radii, by sides where two neighbouring corners are equal, and all at once where all four are
+    {
+        let (stl, str_, sbr, sbl) = (Size::new(tl.0, tl.1), Size::new(tr.0, tr.1), Size::new(br.0, br.1), Size::new(bl.0, bl.1));
+        let mut routes = vec![
+            ("corner by corner", CornerRadiiBuilder::new().top_left(stl).top_right(str_).bottom_right(sbr).bottom_left(sbl).build()),
+            ("corner by corner in reverse order after all()", CornerRadiiBuilder::new().all(Size::new(7, 7)).bottom_left(sbl).bottom_right(sbr).top_right(str_).top_left(stl).build()),
+            ("builder derived from the radii", CornerRadiiBuilder::from(&rr.corners).build()),
+        ];
+        if tl == tr && bl == br {
+            routes.push(("top() and bottom()", CornerRadiiBuilder::new().top(stl).bottom(sbl).build()));
+            routes.push(("bottom() and top() after all()", CornerRadiiBuilder::new().all(Size::new(9, 1)).bottom(sbl).top(stl).build()));
+        }
+        if tl == bl && tr == br {
+            routes.push(("left() and right()", CornerRadiiBuilder::new().left(stl).right(str_).build()));
+            routes.push(("right() and left() after all()", CornerRadiiBuilder::new().all(Size::new(1, 9)).right(str_).left(stl).build()));
+        }
+        if tl == tr && tr == br && br == bl {
+            routes.push(("all()", CornerRadiiBuilder::new().top(Size::new(3, 3)).all(stl).build()));
+            routes.push(("CornerRadii::new", CornerRadii::new(stl)));
+            routes.push(("with_equal_corners", RoundedRectangle::with_equal_corners(rr.rectangle, stl).corners));
+        }
+        obs.class("radii-through-the-builder");
+        for (name, cr) in routes {
+            if cr != rr.corners || (got.len() <= 200 && set(RoundedRectangle::new(rr.rectangle, cr).points()) != got) {
+                obs.fail("same-curve-by-another-description", format!("corner radii described through {name}: {:?} instead of {:?}", cr, rr.corners));
+            }
+        }
+    }
     let cf = rr.confine_radii().corners;
     let over = tl.0 + tr.0 > *w || bl.0 + br.0 > *w || tl.1 + bl.1 > *h || tr.1 + br.1 > *h;
     obs.class_if(over, "radii-need-confining");
@@ -559,7 +588,7 @@ fn main() {
         assumptions: &["angles follow the library's convention: direction (cos t, sin t) with y down, positive sweep clockwise on screen", "f64 distances with 1e-6 slack in favour of the code; observed maxima are reported in the counters"],
         parts: |_| vec![PartSpec::new("shapes", "verif"), PartSpec::new("angles", "verif"), PartSpec::new("angles-fixed-point", "verif_fp")],
         run_part,
-        required_classes: |_| vec!["circle", "described-by-centre", "ellipse", "thin-ellipse", "even-sides", "rounded-rectangle", "radii-need-confining", "unequal-radii", "sector-and-arc", "negative-sweep", "sweep>=360", "fractional-angle", "large-diameter", "sweep-just-below-360"],
+        required_classes: |_| vec!["circle", "described-by-centre", "ellipse", "thin-ellipse", "even-sides", "rounded-rectangle", "radii-through-the-builder", "radii-need-confining", "unequal-radii", "sector-and-arc", "negative-sweep", "sweep>=360", "fractional-angle", "large-diameter", "sweep-just-below-360"],
         crash_is_verdict: false,
     })
 }
